@@ -264,6 +264,40 @@ def run_impl(case, outcome):
                 # computed by the specification from the history of registrations, endings and enableBLOBs alone
                 qs.append(Query("spec deliveries %d %s" % (idx, "%d %s" % (idx + 1, " ".join(ops[:idx + 1]))), " ".join(o["recipients"]), "oracle",
                                 "device traffic of step %d %r did not reach exactly the connections that are open and entitled to it" % (n, st)))
+    # the whole receive path in the model (Model/Conn.lean): bytes -> buffer model -> character-level parser -> router model,
+    # with the handler's control flow (every way of ending closes and unregisters); one observation per script step
+    events, last_of_step = [], []
+    for st in case["script"]:
+        if st[0] == "connect":
+            events.append("K %d %s" % (st[1], "True" if st[2] == "tcp" else "False"))
+        elif st[0] == "recv":
+            events.append("R %d %s ~" % (st[1], enc_str(st[2])))
+        elif st[0] == "dev":
+            events.append("P %s %s ~ d%d" % (enc_str(st[2]), enc_opt(st[3]), st[1]))
+        elif st[0] == "fault":
+            i, kind = st[1], st[2]
+            if kind == "eof":
+                events.append("E %d" % i)
+            elif kind == "read-error":
+                events.append("X %d" % i)
+            elif kind == "eof-inside":
+                events += ["R %d %s ~" % (i, enc_str('<newTextVector device="A" name="P"><oneText name="e">trunc')), "E %d" % i]
+            elif kind == "junk-eof":
+                events += ["R %d %s ~" % (i, enc_str("\x00\xff<<<garbage>>>&&& <foo ")), "E %d" % i]
+            else:
+                k_ = 1 + case["script"].index(st)
+                events.append("R %d %s 0" % (i, enc_str(client_message_xml("newTextVector", "A", k=k_))))
+        last_of_step.append(len(events) - 1 if st[0] not in ("peer-write-error", "write-reset") else None)
+    expected = {}
+    for n, (st, o, le) in enumerate(zip(case["script"], obs, last_of_step)):
+        if le is not None:
+            expected[le] = "clients %s blob %s closed %s done %s got %s" % (o["clients"], o["blob"], o["closed"], o["done"], " ".join(o["recipients"]))
+    if not any(st[0] in ("peer-write-error",) for st in case["script"]):
+        # (a failed write kills the sender task only; the model has no event for it)
+        devs_ = "2 D 0 %s D 1 %s" % (enc_opt("A"), enc_opt("B"))
+        marks = sorted(expected)
+        qs.append(Query("conn run %s %d %s %d %s" % (devs_, len(marks), " ".join(str(x) for x in marks), len(events), " ".join(events)),
+                        " | ".join(expected[i] for i in marks), "corr", "the whole receive path in the model: framing, parser, router and the handler's control flow"))
     # oracle (C18): after a connection ended it is in neither clients nor blob_routing, its writer is closed, its handler task is done,
     # and it receives nothing afterwards; evaluated in Lean from the observations
     ended_at = {}
